@@ -126,6 +126,13 @@ def check_rodded(res, rec, key):
     s_int = sub['_calc_coolant_int_temp'][0]
     cp = s_int['cool_pre']['cp']
     mdot = sc_flows(reg)
+    t_own = float(np.sum(mdot * rec['pre']['coolant_int']) / np.sum(mdot))
+    res.close('I7_properties_at_own_mean_temperature',
+              s_int['cool_pre']['T'] - t_own, t_own, 1e-9,
+              'bundle interior advanced with coolant properties at %.3f K, '
+              'its own flow-weighted mean temperature is %.3f K'
+              % (s_int['cool_pre']['T'], t_own), dict(key, stream='interior'),
+              {'z': rec['z1']})
     # I1b mass: subchannel flows sum to the interior flow
     res.close('I1b_flows_sum', np.sum(mdot) - reg.int_flow_rate,
               reg.int_flow_rate, 1e-10,
@@ -161,8 +168,22 @@ def check_rodded(res, rec, key):
             name = '_calc_coolant_byp_temp'
             sb = sub[name][0]
             cools = [c for c in sb['calls'] if c['kind'] == 'coolant']
-            cpb = cools[i]['cp']
             mb, area, a_tot = byp_flows(reg, i)
+            # properties as used: the update evaluates the coolant at this
+            # gap's own mean temperature before it converts heat (if it does
+            # not, whatever state the coolant object was left in is used)
+            used = cools[i] if i < len(cools) else sb['cool_pre']
+            cpb = used['cp']
+            tb_own = float(np.sum(area * Tb0) / np.sum(area))
+            res.close('I7_properties_at_own_mean_temperature',
+                      used['T'] - tb_own, tb_own, 1e-9,
+                      'bypass gap %d advanced with coolant properties at '
+                      '%.3f K, its own mean temperature is %.3f K (property '
+                      'lag is the previous level of the SAME stream)'
+                      % (i, used['T'], tb_own),
+                      dict(key, stream='bypass'),
+                      {'z': rec['z1'], 'T_used': used['T'], 'T_own': tb_own,
+                       'updates_seen': len(cools)})
             res.close('I1b_byp_flows_sum', np.sum(mb) - reg.byp_flow_rate[i],
                       reg.byp_flow_rate[i], 1e-10,
                       'bypass cell flows do not sum to bypass flow', key)
